@@ -7,14 +7,22 @@ use vpmodel::run::{run_tool, RunOpts, RunOut, Scratch};
 pub struct World {
     pub scratch: Scratch,
     pub n: std::cell::Cell<u32>,
+    /// hash of the indexed block hashes (not of the layout): selects the verbosity of runs whose case
+    /// does not set one, so that every check also sees -v / -vv / -vvv runs (a pure function of the case)
+    pub vsel: u64,
 }
+
+pub const AUTO_VERBOSITY_NOTE: &str = "runs whose case does not fix a verbosity use 0 / -v / -vv / -vvv for 70 / 10 / 10 / 10 % of the chains (chosen by a hash of the indexed block hashes, so that partner runs of one case share it)";
 
 impl World {
     /// writes the plan into <scratch>/data
     pub fn create(tag: &str, plan: &mut Plan) -> Result<World, String> {
         let scratch = Scratch::new(tag);
         plan.write(&scratch.path.join("data"))?;
-        Ok(World { scratch, n: std::cell::Cell::new(0) })
+        let mut hs: Vec<&[u8]> = plan.recs.iter().map(|r| &r.hash[..]).collect();
+        hs.sort();
+        let vsel = vpmodel::hashes::fnv64(&hs.concat());
+        Ok(World { scratch, n: std::cell::Cell::new(0), vsel })
     }
     pub fn data(&self) -> std::path::PathBuf {
         self.scratch.path.join("data")
@@ -26,14 +34,26 @@ impl World {
         self.scratch.sub(&format!("dump{}", k))
     }
     /// run with a fresh dump folder
+    fn with_verbosity(&self, o: &RunOpts) -> RunOpts {
+        let mut o = o.clone();
+        if o.verbose == 0 && o.pause_on.is_none() {
+            o.verbose = match (self.vsel >> 7) % 10 {
+                0 => 1,
+                1 => 2,
+                2 => 3,
+                _ => 0,
+            };
+        }
+        o
+    }
     pub fn run(&self, o: &RunOpts) -> Result<RunOut, String> {
         let d = self.new_dump();
-        let r = run_tool(&self.data(), &d, o)?;
+        let r = run_tool(&self.data(), &d, &self.with_verbosity(o))?;
         let _ = std::fs::remove_dir_all(&d);
         Ok(r)
     }
     pub fn run_in(&self, dump: &std::path::Path, o: &RunOpts) -> Result<RunOut, String> {
-        run_tool(&self.data(), dump, o)
+        run_tool(&self.data(), dump, &self.with_verbosity(o))
     }
 }
 
